@@ -79,7 +79,7 @@ CONFIGS = [dict(group="basic", d=d, batch=b) for d in (1, 2, 3) for b in ("none"
     dict(group="solve", d=3, batch="none"),
     dict(group="spatial", d=3, batch="none"),
     dict(group="linsteps", d=1, batch="none"),
-]
+] + [dict(group=g_, d=d_, batch="b21", layout="F") for g_, d_ in (("basic", 2), ("basic", 3), ("inverse", 3), ("products", 3), ("modes", 3), ("solve", 2), ("eigen", 2))]  # column-major inputs
 
 
 @contract("C17", "tensor", configs=CONFIGS)
@@ -95,6 +95,19 @@ def tensor(vk, cfg):
         vk.ensures_eq("transpose", frame(vk, "transpose", [A], lambda: M.transpose(A)), ref_einsum(sub("ij->ji", batch), A))
         A4 = T(vk, "Q", (d, d, d, d), batch)
         vk.ensures_eq("majortranspose", M.majortranspose(A4), ref_einsum(sub("ijkl->klij", batch), A4))
+        if len(batch) == 2:
+            # ravel / reshape (used by the small-strain framework to store tensors in the state vector): row-major over the
+            # LEADING tensor axes, whatever the memory order of the argument; trailing axes are batch axes
+            vk.real(M.ravel)
+            vk.real(M.reshape)
+            Ar = frame(vk, "ravel", [A], lambda: M.ravel(A))
+            vk.ensures_eq("ravel/[i*d+j]==A[i,j]", Ar, np.array([A[i, j] for i in range(d) for j in range(d)], dtype=A.dtype).reshape((d * d,) + tuple(batch)))
+            vk.ensures_eq("reshape(ravel(A))==A", M.reshape(Ar, (d, d)), A)
+            A4r = M.ravel(A4)
+            vk.ensures_eq("ravel(4th order)/[((i*d+j)*d+k)*d+l]==A[i,j,k,l]", A4r, np.array([A4[i, j, k, l] for i in range(d) for j in range(d) for k in range(d) for l in range(d)], dtype=A.dtype).reshape((d**4,) + tuple(batch)))
+            vk.ensures_eq("reshape(ravel(4th order))==A", M.reshape(A4r, (d, d, d, d)), A4)
+            if vk.sym and d > 1:
+                vk.canary("ravel is column-major", Ar, np.array([A[j, i] for i in range(d) for j in range(d)], dtype=object).reshape((d * d,) + tuple(batch)))
         symspec = (A + ref_einsum(sub("ij->ji", batch), A)) / 2
         out_variants(vk, "sym", A.shape, lambda out: M.sym(A, out=out), symspec, [A])
         trspec = ref_einsum(sub("ii->", batch), A)
